@@ -135,7 +135,7 @@ Compact(f) == IF f.ok THEN <<f.idx, f.len, f.caps>> ELSE <<>>
 
 Emit(pid) ==
   LET t == TreeAt(pid) IN
-  IF ~InFragment(t) THEN PrintT(<<"SKIP", ToJson([pid |-> pid])>>)
+  IF ~InFragment(t, "n" \in O) THEN PrintT(<<"SKIP", ToJson([pid |-> pid])>>)
   ELSE
   LET p == Table(t) IN
   IF ~WF(p, O, Params.dia) THEN PrintT(<<"WFERR", ToJson([pid |-> pid])>>)
